@@ -1,6 +1,7 @@
 package mon
 
 import (
+	"bytes"
 	"fmt"
 	"strconv"
 
@@ -83,14 +84,38 @@ func expectFraming(flags uint8, H, declared, total int) (e sipsp.ErrorHdr, offs 
 }
 
 func checkFraming(w *core.Worker, raw []byte, H, declared int, flags uint8, cfg Cfg) bool {
+	return checkFramingLate(w, raw, H, declared, flags, cfg, -1)
+}
+
+// checkFramingLate: late >= 0 delivers raw[:late] first with the no-more-data flag OFF (a
+// receiver only learns at the end that nothing more will come); when that call suspends, the
+// same object gets the whole buffer with the flags of the case. The result must be the one of
+// the table for (flags, whole buffer).
+func checkFramingLate(w *core.Worker, raw []byte, H, declared int, flags uint8, cfg Cfg, late int) bool {
 	o := newMsg(cfg).(*msgObj)
-	n, e, pan, stk := safeCall(o, raw, 0)
+	var n int
+	var e sipsp.ErrorHdr
+	var pan, stk string
+	if late >= 0 {
+		o.flags = flags &^ sipsp.SIPMsgNoMoreDataF
+		n, e, pan, stk = safeCall(o, isoCopy(raw[:late]), 0)
+		if pan == "" && e != sipsp.ErrHdrMoreBytes {
+			return true // definitive on the partial delivery: judged by the one-shot cases
+		}
+		w.Inc("late_no_more_data_flag_runs")
+		o.flags = flags
+		if pan == "" {
+			n, e, pan, stk = safeCall(o, raw, n)
+		}
+	} else {
+		n, e, pan, stk = safeCall(o, raw, 0)
+	}
 	w.Eval(1)
 	we, wo, wb, wp := expectFraming(flags, H, declared, len(raw))
 	fail := func(what string) bool {
 		w.Fail("framing", func() *core.Violation {
-			v := core.V(fmt.Sprintf("flags=%d (skip-body=%v clen-required=%v no-more-data=%v) Content-Length=%d, %d bytes after the blank line (offset %d): %s; got verdict %s offset %d Body=%v Parsed()=%v",
-				flags, flags&1 != 0, flags&2 != 0, flags&4 != 0, declared, len(raw)-H, H, what, errName(e), n, o.m.Body, o.m.Parsed()), raw,
+			v := core.V(fmt.Sprintf("flags=%d (skip-body=%v clen-required=%v no-more-data=%v; first %d bytes delivered without the no-more-data flag: -1 = no such call) Content-Length=%d, %d bytes after the blank line (offset %d): %s; got verdict %s offset %d Body=%v Parsed()=%v",
+				flags, flags&1 != 0, flags&2 != 0, flags&4 != 0, late, declared, len(raw)-H, H, what, errName(e), n, o.m.Body, o.m.Parsed()), raw,
 				map[string]any{"flags": flags, "declared": declared, "headers_end": H, "len": len(raw)})
 			v.Stack = stk
 			return v
@@ -111,7 +136,7 @@ func checkFraming(w *core.Worker, raw []byte, H, declared int, flags uint8, cfg 
 		if int(m.Body.Offs) != H || int(m.Body.Len) != wb {
 			return fail(fmt.Sprintf("expected Body {%d,%d}", H, wb))
 		}
-		if len(m.RawMsg) != n || len(m.Buf) != n || (n > 0 && (&m.RawMsg[0] != &raw[0] || &m.Buf[0] != &raw[0])) {
+		if !bytes.Equal(m.RawMsg, raw[:n]) || !bytes.Equal(m.Buf, raw[:n]) {
 			return fail(fmt.Sprintf("expected RawMsg = Buf = buf[:%d] (got lengths %d / %d)", n, len(m.RawMsg), len(m.Buf)))
 		}
 	}
@@ -249,6 +274,13 @@ func RunC06(r *core.Run) {
 		for flags := uint8(0); flags < 8 && ok; flags++ {
 			cfg := Cfg{HdrCap: []int{-1, 0, 1, 20}[rr.Intn(4)], ContactCap: []int{-1, 0, 2}[rr.Intn(3)], MsgFlags: flags}
 			ok = checkFraming(w, raw, H, declared, flags, cfg)
+			if ok && flags&sipsp.SIPMsgNoMoreDataF != 0 {
+				late := len(raw)
+				if rr.Bool() {
+					late = rr.Intn(len(raw) + 1)
+				}
+				ok = checkFramingLate(w, raw, H, declared, flags, cfg, late)
+			}
 		}
 		w.Inc(fmt.Sprintf("clen/%s", map[bool]string{true: "absent", false: map[bool]string{true: "fits", false: "short"}[declared <= avail]}[declared < 0]))
 		w.Nontrivial(core.HashBytes(raw))
